@@ -183,8 +183,12 @@ def run(prog, chk, tier):
     # ---- comprehension_required
     cb = prog.bodies["stun_types::attribute::AttributeType::comprehension_required"]
     o = Origins(prog, cb).local(0)
+    from bits import BitEval
+    from mir import O
+    f = BitEval(lambda x: ("t", 16) if x == O("field", O("param", 1), "0") else None).pred(o)
     chk.ob("comprehension-required", "value < 0x8000 (bit 15 clear), exact for all 65536 types",
-           pm(o, ("bin", "Lt", ("field", ("param", "self"), "0"), ("const", 0x8000)), cb), cb.loc(), detail=repr(o))
+           f == ("and", frozenset({("n", "t", 15)})) or f == ("lit", ("n", "t", 15)), cb.loc(),
+           detail="predicate %r from %r" % (f, o), how="known-bits: result = not bit 15")
     # ---- responses
     rule = "responses"
     be = prog.bodies[M + "builder_error_unchecked"]
